@@ -125,7 +125,7 @@ def check(run, project):
             continue
         if in_completion:
             # processor finished: legal only when nothing is left, i.e. depleted in every state
-            fresh = [s for s in states if not s[1]]
+            fresh = [s for s in states if not s[1] and not s[3]]   # (after its own warning the pump may return in warn mode)
             # returns the processor's result (second component of StopIteration.value)
             okv = isinstance(val, ast.Name) and any(
                 r[0] == "unpack" and r[2] == 1 and norm(r[1]) == f"{h.name}.value" for r in rd.value_exprs(rnode, val.id))
@@ -148,7 +148,8 @@ def check(run, project):
     for rnode, states in silent[:1]:
         tests = enclosing_tests(rnode.ast, fn)
         cj = [c for t, in_body in tests if in_body for c in conjuncts(t, F, t)]
-        dep_ok = any(isinstance(c, ast.Name) and c.id == roles.depleted_var for c in cj)
+        dep_ok = any(isinstance(c, ast.Name) and c.id == roles.depleted_var for c in cj) if roles.depleted_var is not None else \
+            any(norm(c) == f"{roles.byte_var} is None" for c in cj)   # (marker form: the look-ahead variable is None)
         typed = any(norm(c) in (f"{tparam} is {stream_name}", f"{tparam} == {stream_name}",
                                 f"issubclass({tparam}, {stream_name})") for c in cj)
         run.ob("E3", dep_ok, "silent return only when the source is depleted",
@@ -180,12 +181,31 @@ def check(run, project):
            if dep_raise else "no raise of InputStreamBytesDepletedError left in the pump",
            module=mod, node=dep_raise[0][0] if dep_raise else fn, func=fn.name, construct="raise depleted")
     # the loop exit: while-test false edge -> must not reach exit without raise/warn
-    loop_tests = [n for n in F.cfg.nodes if n.kind == "test" and isinstance(n.label, ast.While)
-                  and roles.depleted_var in norm(n.ast)]
-    if len(loop_tests) != 1:
-        raise AnalysisError("C05: the pull loop `while not <depleted>` was not found")
-    lt = loop_tests[0]
-    after = [s for lab, s in lt.succ if lab == "false"]
+    # the pull loop: the `while` that contains the byte send; its exits are the false edge of its test and its breaks
+    send_nodes = [n for n, _st in F.send_byte]
+    loops_ = []
+    for sn in send_nodes:
+        p_ = sn.ast
+        while p_ is not None and not isinstance(p_, ast.While):
+            p_ = getattr(p_, "_parent", None)
+        if p_ is not None and p_ not in loops_:
+            loops_.append(p_)
+    if len(loops_) != 1:
+        raise AnalysisError("C05: the pull loop of the pump was not found")
+    loop_ast = loops_[0]
+    inside = {id(x) for x in ast.walk(loop_ast)}
+
+    def in_loop(n):
+        return n.ast is not None and (id(n.ast) in inside or (n.kind == "test" and n.label is loop_ast))
+    after = []
+    for n in F.cfg.nodes:
+        if not in_loop(n):
+            continue
+        for lab, s_ in n.succ:
+            if not in_loop(s_) and s_ is not F.cfg.exit and s_ is not F.cfg.raise_exit and s_.kind != "handler" \
+                    and not (n.kind == "stmt" and isinstance(n.ast, (ast.Return, ast.Raise))) and s_ not in after:
+                after.append(s_)
+    lt = next((n for n in F.cfg.nodes if n.kind == "test" and n.label is loop_ast), None) or send_nodes[0]
     escaped = reach_exit_without(F.cfg, after, stop_ids=set(warn_yields) | {n.id for n, _ in dep_raise})
     run.ob("E1", not escaped, "leaving the pull loop always reports depletion",
            "a path from the end of the pull loop reaches the pump's exit without raising / warning "
